@@ -281,7 +281,18 @@ func init() {
 	reg("tbprobe", func(a []string) string {
 		n := mustI64(a[1]) // words
 		tb := bitmap.NewTailBitmap(0)
+		var everSet []int64 // indices that were set and must stay answerable (C15: "for every j up to the highest index ever set")
 		check := func(when string, isSet func(int64) bool) string {
+			for _, j := range everSet {
+				got := uint64(99)
+				func() {
+					defer func() { recover() }()
+					got = tb.Get1(j)
+				}()
+				if got != 1 {
+					return fmt.Sprintf("%s: Get1(%d)=%d for an index that was set (99 = panic)", when, j, got)
+				}
+			}
 			if tb.Offset%64 != 0 {
 				return when + ": Offset not a multiple of 64"
 			}
@@ -337,6 +348,7 @@ func init() {
 		case "farbit": // a bit n words ahead, then enough front words to cross the reclaim threshold
 			far := n*64 + 17
 			tb.Set(far)
+			everSet = append(everSet, far)
 			for j := int64(0); j < 70000; j++ {
 				tb.Set(j)
 			}
@@ -344,6 +356,7 @@ func init() {
 				return r
 			}
 			tb.Set(far + 640)
+			everSet = append(everSet, far+640)
 			if r := check("after a later far Set", func(j int64) bool { return j < 70000 || j == far || j == far+640 }); r != "" {
 				return r
 			}
